@@ -58,6 +58,12 @@ def main():
     except HarnessError as e:
         print('HARNESS-ERROR %s: %s' % (prop, e))
         return 3
+    except Exception as e:
+        # e.g. the repository does not import: inconclusive, never a verdict
+        import traceback
+        traceback.print_exc()
+        print('HARNESS-ERROR %s: %s: %s' % (prop, type(e).__name__, e))
+        return 3
 
 
 if __name__ == '__main__':
